@@ -23,6 +23,12 @@ A property has a type
 Rules (the statement, made explicit):
 
  read  (object, property, index)
+    object identifier (Device, 4194303)              -> the request is treated as if the identifier matched the
+                                                        device's own Device object (15.5.2, 15.7.2: instance
+                                                        4194303 is the "whoever you are" form); everything below
+                                                        applies to that object.  The identifier the reply carries
+                                                        may be the one asked for or the device's actual one
+                                                        (Model.answers_as); the statement does not say which
     unknown object                                   -> refused: unknown-object
     property absent from the object                  -> refused: unknown-property (with an index also: bad-array-index)
     index given, property not an array               -> refused: bad-array-index
@@ -104,6 +110,12 @@ def unsigned_item(n):
 
 NULL_ITEM = (NULL, b"\x00")
 
+# Clauses 15.5.2 (ReadProperty) and 15.7.2 (ReadPropertyMultiple): "If the object identifier is of type Device and
+# the instance is 4194303, the responding BACnet-user shall treat the Object Identifier as if it correctly matched
+# the local Device object."  4194303 = 2**22 - 1, the instance number no object may have (clause 12).  The rule is
+# given for the two read services only; WriteProperty has no such rule and the model gives none.
+WILDCARD_DEVICE = ("device", 4194303)
+
 
 def concat(items):
     return b"".join(o for (_, o) in items)
@@ -159,19 +171,36 @@ def _absent(index):
 class Model(object):
     def __init__(self):
         self.objects = {}       # (type name, instance) -> {property name: Prop}
+        self.local_device = None    # key of the Device object that describes the device itself (None: not modelled)
 
     def copy(self):
         m = Model()
         m.objects = dict((o, dict((p, pr.copy()) for p, pr in props.items())) for o, props in self.objects.items())
+        m.local_device = self.local_device
         return m
 
-    def add(self, objkey, props):
+    def add(self, objkey, props, local_device=False):
         self.objects[objkey] = dict(props)
+        if local_device:
+            self.local_device = objkey
+
+    # ------------------------------------------------------------------ object identifiers of the read services
+    def denotes(self, objkey):
+        """The object a ReadProperty / ReadPropertyMultiple request means by `objkey`: the wildcard Device instance
+        is the device's own Device object (not any other Device object the device may hold), everything else is
+        itself."""
+        if tuple(objkey) == WILDCARD_DEVICE and self.local_device is not None:
+            return self.local_device
+        return objkey
+
+    def answers_as(self, objkey):
+        """Object identifiers a reply to a read of `objkey` may carry."""
+        return frozenset([tuple(objkey), tuple(self.denotes(objkey))])
 
     # ------------------------------------------------------------------ read
     def read(self, objkey, prop, index):
         """("value", octets | None) | ("refuse", (class, ...)) | ("unpredicted",).  octets None = value not predicted."""
-        obj = self.objects.get(objkey)
+        obj = self.objects.get(self.denotes(objkey))
         if obj is None:
             return ("refuse", ("unknown-object",))
         p = obj.get(prop)
@@ -195,13 +224,13 @@ class Model(object):
         return ("refuse", ("bad-array-index",))
 
     def present(self, objkey):
-        return sorted(self.objects[objkey])
+        return sorted(self.objects[self.denotes(objkey)])
 
     def selector(self, objkey, which):
         """Property names a ReadPropertyMultiple selector stands for (clause 15.7.3.1.2): `all` = every
         property of the object, `required` = those with conformance code R or W, `optional` = those with
         code O; Property_List is not returned for all / required."""
-        obj = self.objects[objkey]
+        obj = self.objects[self.denotes(objkey)]
         out = []
         for name in sorted(obj):
             if name == "propertyList":
